@@ -1,0 +1,12 @@
+//go:build verif
+
+package ivg
+
+import "fmt"
+
+// VerifGlobals serialises every package-level variable of this package. It
+// exists only under the verif build tag and is used by external monitors to
+// observe that no operation writes to package-level data.
+func VerifGlobals() []byte {
+	return []byte(fmt.Sprintf("%x|%v|%v|%v|%v", MagicBytes, DefaultViewBox, DefaultPalette, DefaultMetadata, dc1Table))
+}
